@@ -1044,6 +1044,8 @@ type responseWriter struct {
 	// has WriteHeader or first call to Write occurred?
 	headersWritten bool
 	contentLen     int
+	// number of body bytes accepted from the handler so far
+	bodyLen int64
 	// have headers actually been flushed to delegate?
 	headersFlushed bool
 	// have we already written the end of the stream (error/trailers/etc)?
@@ -1080,7 +1082,9 @@ func (w *responseWriter) Write(data []byte) (n int, err error) {
 	if w.err != nil {
 		return 0, w.err
 	}
-	return w.w.Write(data)
+	n, err = w.w.Write(data)
+	w.bodyLen += int64(n)
+	return n, err
 }
 
 func (w *responseWriter) WriteHeader(statusCode int) {
@@ -1313,6 +1317,11 @@ func (w *responseWriter) close() {
 		// the client sees, not an addition to the handler's own trailers.
 		trailer = httpExtractTrailers(w.Header(), w.respMeta.pendingTrailerKeys)
 	}
+	if !w.endWritten && w.contentLen >= 0 && w.bodyLen != int64(w.contentLen) {
+		// The declared length was taken out of the headers, so no HTTP server
+		// will enforce it anymore.
+		w.reportError(fmt.Errorf("handler wrote %d bytes but declared a content-length of %d", w.bodyLen, w.contentLen))
+	}
 	if w.w != nil {
 		_, _ = w.w.Write(nil) // trigger any final writes
 		_ = w.w.Close()
@@ -1489,7 +1498,7 @@ func (w *envelopingWriter) Close() error {
 		}
 		defer w.rw.op.bufferPool.Put(buf)
 	}
-	if w.remainingBytes == -1 && w.mustReleaseCurrent && w.err == nil {
+	if w.remainingBytes == -1 && w.mustReleaseCurrent && w.err == nil && !w.rw.endWritten {
 		length := buf.Len()
 		if limit := int(w.rw.op.methodConf.maxMsgBufferBytes); length > limit {
 			w.err = bufferLimitError(int64(limit))
@@ -1688,8 +1697,10 @@ func (w *transformingWriter) Write(data []byte) (n int, err error) {
 
 func (w *transformingWriter) Close() error {
 	if w.expectingBytes == -1 {
-		if err := w.flushMessage(); err != nil {
-			w.rw.reportError(err)
+		if !w.rw.endWritten { // nothing may follow the end of the RPC
+			if err := w.flushMessage(); err != nil {
+				w.rw.reportError(err)
+			}
 		}
 	} else if w.buffer != nil && w.buffer.Len() > 0 {
 		// Unfinished body!
